@@ -69,6 +69,35 @@ def forRange {α ρ : Type} (l : List α) (f : α → Option (Option ρ)) : Opti
     | some (some r) => some (some r)
     | some none => forRange xs f
 
+/-- outcome of one iteration of a range loop with state: go on with the new state, or the function returned -/
+inductive Flow (σ ρ : Type) where
+  | next (s : σ)
+  | ret (r : ρ)
+
+/-- `for i, v := range xs { … }` over the tuple of variables the body assigns (the slice is evaluated once);
+    the index counts from the given start -/
+def forFold {α σ ρ : Type} (f : σ → Int → α → Option (Flow σ ρ)) : List α → Int → σ → Option (Flow σ ρ)
+  | [], _, s => some (.next s)
+  | x :: xs, i, s =>
+    match f s i x with
+    | none => none
+    | some (.ret r) => some (.ret r)
+    | some (.next s') => forFold f xs (i + 1) s'
+
+/-- `make(T, n)`: n zero values; a negative length panics -/
+def mkLen {α : Type} (n : Int) (z : α) : Option (List α) := if n < 0 then none else some (List.replicate n.toNat z)
+/-- `make(T, 0, c)`: the empty slice; a negative capacity panics -/
+def mkCap {α : Type} (c : Int) : Option (List α) := if c < 0 then none else some []
+/-- `xs[i] = v` -/
+def setA {α : Type} (l : List α) (i : Int) (v : α) : Option (List α) :=
+  if 0 ≤ i ∧ i < l.length then some (l.set i.toNat v) else none
+/-- `xs[:n]` (only up to the length: Go allows up to the capacity) -/
+def takeA {α : Type} (l : List α) (n : Int) : Option (List α) :=
+  if 0 ≤ n ∧ n ≤ l.length then some (l.take n.toNat) else none
+/-- `xs[n:]` -/
+def dropA {α : Type} (l : List α) (n : Int) : Option (List α) :=
+  if 0 ≤ n ∧ n ≤ l.length then some (l.drop n.toNat) else none
+
 def fuel : Nat := 1024
 
 /-- `int(f)` for a float `f` translated as an exact rational: truncation toward zero -/
